@@ -53,9 +53,12 @@ CLAIMS = {
     "C04": dict(
         text="SemInv (permits = started regions <= Concurrency), OpsHoldPermit, OnlyOwnerWorks are invariants of "
              "CopyGraph.tla checked exhaustively; on recorded executions CopyMon.tla counts in-flight source and "
-             "destination operations, pushes and blob fetches per node and checks the callback grammar and order.",
+             "destination operations, pushes and blob fetches per node and checks the callback grammar and order. "
+             "Limiter.tla models internal/syncutil/limit.go alone; its invariant (permits = regions not ended <= C) is "
+             "checked by TLC and discharged as an inductive invariant by Apalache.",
         note="An operation is in flight from the moment the library calls the storage until it returns (time parked "
-             "at the gate included).",
+             "at the gate included); a source read until the stream it returned is closed. A limiter panic "
+             "('released more than held') that kills the driver is replayed alone and judged (PermitReleasedOnlyIfHeld).",
         ref="3 C04", technique=TECH + " (CopyMon.tla accounting monitors)"),
     "C05": dict(
         text="VerifyIngest.tla states the requirement from the property text (MustFail / Trailing / Good over scripted "
